@@ -50,6 +50,15 @@ theorem mem_todoOf {v : Variant} {c : Cfg} {o : Op} {r : Ret} {del : List Key} {
         · exact Or.inr (Or.inr ⟨b, sz, i, rfl, rfl, h⟩)
         · exact Or.inl h
         · exact Or.inr (Or.inl ⟨k, hk, rfl⟩)
+    · split at h
+      · simp only [List.mem_cons, List.mem_map] at h
+        rcases h with h | ⟨k, hk, rfl⟩
+        · exact Or.inl h
+        · exact Or.inr (Or.inl ⟨k, hk, rfl⟩)
+      · simp only [List.mem_append, List.mem_map, List.mem_singleton] at h
+        rcases h with ⟨k, hk, rfl⟩ | h
+        · exact Or.inr (Or.inl ⟨k, hk, rfl⟩)
+        · exact Or.inl h
     · simp only [List.mem_cons, List.mem_map] at h
       rcases h with h | ⟨k, hk, rfl⟩
       · exact Or.inl h
@@ -82,6 +91,15 @@ theorem todoOf_nodup (v : Variant) (c : Cfg) (o : Op) (r : Ret) {del : List Key}
       · simp only [List.nodup_cons, List.mem_cons, List.mem_map, reduceCtorEq, and_false, exists_false, or_self,
           not_false_eq_true, true_and]
         exact hm
+    · split
+      · simp only [List.nodup_cons, List.mem_map, reduceCtorEq, and_false, exists_false, not_false_eq_true, true_and]
+        exact hm
+      · rw [List.nodup_append]
+        refine ⟨hm, by simp, ?_⟩
+        intro a ha b hb
+        simp only [List.mem_map] at ha
+        obtain ⟨k, _, rfl⟩ := ha
+        simp at hb; simp [hb]
     · simp only [List.nodup_cons, List.mem_map, reduceCtorEq, and_false, exists_false, not_false_eq_true, true_and]
       exact hm
 
